@@ -194,6 +194,12 @@ func LoadKnown() map[string]KnownFinding {
 // classify maps a reproduced finding to the id of a known finding ("" = new violation).
 func (c *Ctx) Finish(classify func(Finding) string) int {
 	defer c.Cleanup()
+	buildPanicMu.Lock()
+	for _, bp := range BuildPanics {
+		c.Findings = append(c.Findings, Finding{Scenario: Scenario{Name: "build-file", Kind: "history"}, Spec: "harness", Detail: "the real code panicked while executing a generated history: " + Tail(bp, 12)})
+	}
+	BuildPanics = nil
+	buildPanicMu.Unlock()
 	known := LoadKnown()
 	violations := 0
 	replayDir := filepath.Join(VerifRoot, "out", "replay")
@@ -366,4 +372,25 @@ func (c *Ctx) ChildTimeout() time.Duration {
 		return 15 * time.Minute
 	}
 	return 5 * time.Minute
+}
+
+// PanicInRealCode reports whether the innermost non-runtime frame below panic() in a stack dump belongs to
+// the code under test (go.etcd.io/bbolt) rather than to the harness.
+func PanicInRealCode(stack string) bool {
+	lines := strings.Split(stack, "\n")
+	seenPanic := false
+	for _, l := range lines {
+		if strings.HasPrefix(l, "\t") || l == "" {
+			continue
+		}
+		if strings.HasPrefix(l, "panic(") {
+			seenPanic = true
+			continue
+		}
+		if !seenPanic || strings.HasPrefix(l, "runtime.") || strings.HasPrefix(l, "runtime/") {
+			continue
+		}
+		return strings.HasPrefix(l, "go.etcd.io/bbolt")
+	}
+	return false
 }
